@@ -177,7 +177,13 @@ def run(prog, rep):
     guarded(rep, "C05.R1", FILL, lambda: _fill(prog, rep))
     if prog.config == "fuzzing":
         guarded(rep, "C05.R4", "crate::fuzzing", lambda: _fuzzing(prog, rep))
-    for l in ("C11.R3", "C10", "C01.R1"):
+    # the general path must agree with the shortcut: it measures with the indent the line carries (C02), does not
+    # break a line that fits (C07.R1 / C03), keeps every word (C06) and reassembles it unchanged (C01.R1)
+    need = ["C11.R3", "C10", "C01.R1", "C02", "C07.R1", "C06.R2"]
+    from .common import has_feature as _hf
+    if _hf(prog, "smawk"):
+        need += ["C03.R1", "C03.R2", "C06.R3"]
+    for l in need:
         st = lemmas.status(prog, l)
         if st == "ok":
             rep.ok("C05.R3", "crate", "lemma %s holds in this run" % l, "evaluated: ok", nontrivial=False)
